@@ -180,6 +180,7 @@ def edit_ssc(rng, sf, steps):
                 nk = rng.choice(["NOTES", "NOTES", "NOTES2"])
                 if "NOTES" in c and nk == "NOTES2": del c["NOTES"]
                 if nk not in c: c[nk] = rand_notes(rng)
+                if rng.random() < .08: c[nk] = None      # note data loaded from a key-only #NOTES;
                 sf.charts.insert(rng.randrange(len(sf.charts) + 1), c); log.append(["addchart", nk])
             elif op == "delchart" and sf.charts:
                 sf.charts.pop(rng.randrange(len(sf.charts))); log.append(["delchart"])
@@ -217,15 +218,15 @@ def edit_ssc(rng, sf, steps):
 
 
 def ssc_chart_has_notes(c):
-    """the chart's note data property (NOTES, or NOTES2 when only that alias is present) holds a string"""
+    """the chart has its note data property (NOTES, or NOTES2 when only that alias is present); the value may be None (#NOTES;)"""
     nk = "NOTES2" if ("NOTES" not in c and "NOTES2" in c) else "NOTES"
-    return nk in c and isinstance(c[nk], str)
+    return nk in c and (c[nk] is None or isinstance(c[nk], str))
 
 
 def ssc_chart_ok(c):
-    """exactly one of NOTES/NOTES2 with a string value (the domain of C02)"""
+    """exactly one of NOTES/NOTES2, holding a string or None (the domain of C02)"""
     has = [k for k in ("NOTES", "NOTES2") if k in c]
-    return len(has) == 1 and isinstance(c[has[0]], str)
+    return len(has) == 1 and (c[has[0]] is None or isinstance(c[has[0]], str))
 
 
 # ---------------------------------------------------------------------------------------------
@@ -281,7 +282,7 @@ def rand_text(rng, ssc=None):
                 both = [param("NOTES2", 1), param(rng.choice(["NOTES", "notes"]), 1)]
                 rng.shuffle(both); parts += both
             elif rng.random() < .9:
-                parts.append(param(rng.choice(["NOTES", "NOTES", "notes", "NOTES2"]), 1))
+                parts.append(param(rng.choice(["NOTES", "NOTES", "notes", "NOTES2"]), rng.choice([1, 1, 1, 1, 0])))      # 0: key-only #NOTES;
             if rng.random() < .3: parts.append(param())
         else:
             ncomp = rng.choice([6, 6, 6, 6, 7, 8, 5, 2, 1, 0])      # 0: the key-only form #NOTES;
